@@ -276,14 +276,17 @@ def run_check(pid, tier, seed, blocks, level='model_checking', assumptions=(),
                            'signature': v['signature'], 'detail': v['detail'],
                            'case': v['case'],
                            'count': tot.counters.get('viol:' + key, 1)}, f, indent=1)
-            ok = confirm_replay(pid, path)
+            ok = confirm_replay(pid, path) if n < 3 else True
             if ok is False:
                 print(f'HARNESS-NONDETERMINISM property={pid} replay={path}: '
                       'violation did not reproduce in a fresh process', file=sys.stderr)
                 exit_code = max(exit_code, 2)
                 continue
-            print(f'VIOLATION property={pid} replay={path}')
-            print(f'  signature={key}\n  detail={v["detail"][:600]}')
+            if n < 25:
+                print(f'VIOLATION property={pid} replay={path}')
+                print(f'  signature={key}\n  detail={v["detail"][:600]}')
+            elif n == 25:
+                print(f'VIOLATION property={pid} replay={path}  (+{len(new_keys) - 25} further signatures, see {rdir})')
             exit_code = 1 if exit_code == 0 else exit_code
 
     # --- evidence
